@@ -534,6 +534,38 @@ def frame(ctx):
         ctx.ob('FRAME', VD + '::VolterraDislocation.__mn_check', 'm, n = %s: %s' % (tag, 'accepted' if accept else 'refused'), acc == accept, node=mn, key='mn ' + tag)
 
 
+_REDUCERS = {'max', 'min', 'amax', 'amin', 'nanmax', 'nanmin', 'ptp', 'mean', 'median', 'std', 'var', 'argmax', 'argmin', 'sort', 'argsort', 'unique', 'cumsum', 'average', 'percentile', 'quantile'}
+
+
+def pointwise(ctx):
+    """the fields are functions of the point: what is returned for one position does not depend on the other positions passed in the same call (the field of a
+    thousand points is the thousand fields of one point).  Decided structurally: the field methods reduce over nothing but named einsum indices -- no maximum / minimum /
+    mean / ordering over the array of positions or over the result, no clean-up store through a closeness mask (its threshold would be shared by all points)"""
+    n = 0
+    for rel, cname in ((STR, 'Stroh'), (ISO, 'IsotropicVolterraDislocation')):
+        for meth in ('displacement', 'strain', 'stress', 'eta', 'theta'):
+            fn = ctx.fn_opt(rel, '%s.%s' % (cname, meth))
+            if fn is None:
+                continue
+            n += 1
+            hits = []
+            for x in ast.walk(fn):
+                if isinstance(x, ast.Call):
+                    f = x.func
+                    nm = f.attr if isinstance(f, ast.Attribute) else (f.id if isinstance(f, ast.Name) else '')
+                    if nm in _REDUCERS:
+                        hits.append('line %d: %s' % (x.lineno, norm(x)[:60]))
+                    if nm == 'norm' and not any(k.arg == 'axis' for k in x.keywords) and len(x.args) < 3:
+                        hits.append('line %d: %s (norm over the whole array)' % (x.lineno, norm(x)[:60]))
+                    if nm in ('sum', 'prod', 'any', 'all') and not any(k.arg == 'axis' for k in x.keywords) and len(x.args) < 2 and not (isinstance(f, ast.Name)):
+                        hits.append('line %d: %s (reduction over the whole array)' % (x.lineno, norm(x)[:60]))
+                if _is_cleanup(x):
+                    hits.append('line %d: %s (clean-up through a closeness mask)' % (x.lineno, norm(x)[:60]))
+            ctx.ob('POINTWISE', '%s::%s.%s' % (rel, cname, meth), 'the value returned for a position does not depend on the other positions of the same call (no reduction over the positions or the result, no shared clean-up threshold)',
+                   not hits, '; '.join(hits[:3]), node=fn, key='pointwise %s.%s' % (cname, meth))
+    ctx.floor('POINTWISE', n, 8)
+
+
 def dispatch(ctx):
     fn = ctx.fn(SV, 'solve_volterra_dislocation')
     loc = SV + '::solve_volterra_dislocation'
@@ -596,4 +628,4 @@ def run(ctx):
                        'with a raising model of the anisotropic solver; the plane-normal construction used by the Miller route is decided as in C16. Not decided: accuracy of the numerical eigen-solution, positive-definiteness, the isotropic limit.')
     from .c16 import plane_normal, map34     # the Miller route (ξ_uvw, slip_hkl) gets its n axis from miller.plane_crystal_to_cartesian; the Burgers vector and the line
     # direction given in crystal indices become Cartesian vectors through miller.vector_crystal_to_cartesian (a vector: no origin added)
-    ctx.run_rules([isotropic, stroh, frame, dispatch, plane_normal, map34, float_fields, resolve_state, stiffness_rotation, lambda c: __import__("amverif.rules.c11", fromlist=["x"]).axes_check_rule(c, "FRAME")])
+    ctx.run_rules([isotropic, stroh, pointwise, frame, dispatch, plane_normal, map34, float_fields, resolve_state, stiffness_rotation, lambda c: __import__("amverif.rules.c11", fromlist=["x"]).axes_check_rule(c, "FRAME")])
